@@ -22,6 +22,15 @@ type outEntry struct {
 	Locks   []outLock `json:"locks"`
 	Init    bool      `json:"init"`
 	Pos     string    `json:"pos"`
+	Acq     map[string]string `json:"acq"` // lock -> position of the Lock() call of its critical section | "entry"
+}
+
+type outCall struct {
+	Caller string            `json:"caller"`
+	Callee string            `json:"callee"`
+	Pos    string            `json:"pos"`
+	Acq    map[string]string `json:"acq"`
+	Async  bool              `json:"async"`
 }
 
 type outClass struct {
@@ -32,6 +41,7 @@ type outClass struct {
 type outTable struct {
 	Entries    []outEntry          `json:"entries"`
 	Classes    []outClass          `json:"classes"`
+	Calls      []outCall           `json:"calls"`
 	Locs       []string            `json:"locs"`
 	Mutexes    []string            `json:"mutexes"`
 	Funcs      []string            `json:"funcs"`
@@ -386,7 +396,7 @@ func finish(an *analysis) *outTable {
 			}
 		}
 	}
-	t := &outTable{EntryLocks: map[string][]string{}, SingleCall: an.runCalls, Entries: []outEntry{}, Coarse: []string{}}
+	t := &outTable{EntryLocks: map[string][]string{}, SingleCall: an.runCalls, Entries: []outEntry{}, Coarse: []string{}, Calls: []outCall{}}
 	locs, mus, fns := map[string]bool{}, map[string]bool{}, map[string]bool{}
 	usedCls := map[string]bool{}
 	for _, u := range an.order {
@@ -398,13 +408,19 @@ func finish(an *analysis) *outTable {
 		if u.coarse {
 			t.Coarse = append(t.Coarse, u.name)
 		}
+		for _, c := range u.calls {
+			t.Calls = append(t.Calls, outCall{Caller: u.name, Callee: c.callee.name, Pos: posStr(c.pos), Acq: c.acq, Async: c.async != ""})
+		}
 		var cls []string
 		for c := range u.classes {
 			cls = append(cls, c)
 		}
 		sort.Strings(cls)
 		for _, a := range u.accesses {
-			e := outEntry{Loc: a.Loc, Kind: "R", Fn: u.name, Classes: cls, Init: a.Init, Pos: posStr(a.Pos), Locks: []outLock{}}
+			e := outEntry{Loc: a.Loc, Kind: "R", Fn: u.name, Classes: cls, Init: a.Init, Pos: posStr(a.Pos), Locks: []outLock{}, Acq: a.Acq}
+			if e.Acq == nil {
+				e.Acq = map[string]string{}
+			}
 			if a.Write {
 				e.Kind = "W"
 			}
